@@ -285,6 +285,15 @@ def p_hasattr(I, n, pos, kw):
     return Sc(sym.Opq("config", (), fresh("hasattr")))
 
 
+@prim("itertools.zip_longest")
+def p_zip_longest(I, n, pos, kw):
+    fill = kw.get("fillvalue", NoneV())
+    if pos and all(isinstance(x, Seq) for x in pos):
+        m = max(len(x.items) for x in pos)
+        return Seq([Seq([x.items[k] if k < len(x.items) else fill for x in pos], "tuple") for k in range(m)], "list")
+    return I.unknown("prim:itertools.zip_longest", n)
+
+
 @prim("builtins.zip")
 def p_zip(I, n, pos, kw):
     return ObjV(None, dict(items=list(pos)), tag="zip")
@@ -1094,6 +1103,56 @@ def p_copy(I, n, pos, kw):
 @prim("matplotlib.pyplot.gca", "matplotlib.pyplot.gcf", "matplotlib.pyplot.figure")
 def p_gca(I, n, pos, kw):
     return ObjV(None, {}, tag="pyplot-current")
+
+
+@prim("numpy.pad")
+def p_pad(I, n, pos, kw):
+    """constant (zero) padding after the existing entries: position i of a padded axis holds the old entry for i < old
+    size and the fill value beyond (padding in front is followed only for constant widths)"""
+    a = arrays.to_arr(pos[0]) if not isinstance(pos[0], Arr) else pos[0]
+    pw = _kw(kw, pos, "pad_width", 1)
+    mode = kw.get("mode", pos[2] if len(pos) > 2 else None)
+    cv = kw.get("constant_values")
+    I.event("pad", n, arg=a, pad_width=pw, mode=mode, constant_values=cv)
+    if not isinstance(a, Arr) or pw is None:
+        return I.unknown("prim:numpy.pad", n)
+    if mode is not None and not (isinstance(mode, StrV) and mode.s == "constant"):
+        return I.unknown("np.pad-mode", n)
+    fill = sym.ZERO
+    if cv is not None:
+        if not (isinstance(cv, Sc) and cv.e is not None):
+            return I.unknown("np.pad-constant", n)
+        fill = cv.e
+    widths = []
+    if isinstance(pw, Seq) and len(pw.items) == a.ndim and all(isinstance(x, Seq) and len(x.items) == 2 for x in pw.items):
+        for x in pw.items:
+            if not all(isinstance(z, Sc) and z.e is not None for z in x.items):
+                return I.unknown("np.pad-width", n)
+            widths.append((x.items[0].e, x.items[1].e))
+    elif isinstance(pw, Seq) and len(pw.items) == 2 and all(isinstance(z, Sc) and z.e is not None for z in pw.items):
+        widths = [(pw.items[0].e, pw.items[1].e)] * a.ndim
+    elif isinstance(pw, Sc) and pw.e is not None:
+        widths = [(pw.e, pw.e)] * a.ndim
+    else:
+        return I.unknown("np.pad-width", n)
+    a = a.renamed()
+    e = a.elem
+    axes = []
+    inside = sym.TRUE
+    for (sp, iv), (before, after) in zip(a.axes, widths):
+        if before == sym.ZERO and after == sym.ZERO:
+            axes.append((sp, iv))
+            continue
+        if before != sym.ZERO:
+            if not (before[0] == "num" and float(before[1]).is_integer() and before[1] > 0):
+                return I.unknown("np.pad-before", n)
+            k = int(before[1])
+            e = sym.subst_ivar(e, iv, (iv, -k))
+            inside = sym.And(inside, sym.Cmp(">=", sym.IV(iv), sym.Num(k)), sym.Cmp("<", sym.IV(iv), sym.add(sp.size, sym.Num(k))))
+        else:
+            inside = sym.And(inside, sym.Cmp("<", sym.IV(iv), sp.size))
+        axes.append((rng(sym.add(sym.add(sp.size, before), after)), iv))
+    return Arr(axes, e if inside == sym.TRUE else sym.ITE(inside, e, fill), "nd")
 
 
 @prim("numpy.interp")
